@@ -651,6 +651,26 @@ Section Handle.
       apply (peer_addr_wf parse_ip parse_cidr split_host_port Hnet).
     - apply trusted_cfg. exact Hl.
   Qed.
+
+  (** histories on one instance: what the n-th request gets is what it would get alone, whatever was served
+      before and whatever comes after (the instance has no memory) ... *)
+  Theorem history_pointwise m cfg reqs i r raw :
+    nth_error reqs i = Some (r, raw) ->
+    nth_error (run_instance parse_uri parse_ip parse_cidr split_host_port true m cfg reqs) i = Some (handle' m cfg r raw).
+  Proof. intro H. unfold run_instance. rewrite nth_error_map, H. reflexivity. Qed.
+
+  (** ... in particular a request of a peer that is not listed gets the connection-only view after any history,
+      e.g. directly after requests of a listed peer whose address is written with the same leading text *)
+  Theorem history_untrusted m cfg reqs i r raw :
+    nth_error reqs i = Some (r, raw) ->
+    ~ listed' m cfg (r_remote r) ->
+    nth_error (run_instance parse_uri parse_ip parse_cidr split_host_port true m cfg reqs) i =
+      Some {| s_view := {| v_method := r_method r; v_scheme := scheme_of r; v_host := r_host r;
+                           v_rawpath := r_escpath r; v_query := r_rawquery r; v_ips := [host' (r_remote r)];
+                           v_hdrs := parse_headers (not_forwarded_raw raw) |};
+              s_up_hdrs := (parse_headers (not_forwarded_raw raw) ++ [(FWD, fresh_forwarded r)])%list;
+              s_up_method := r_method r |}.
+  Proof. intros H Hl. rewrite (history_pointwise m cfg reqs i r raw H), (handle_untrusted m cfg r raw Hl). reflexivity. Qed.
 End Handle.
 
 (* ------------------------------------------------------------------ oracles given by a finite table of observed answers *)
